@@ -17,7 +17,7 @@ def run(m, chk):
         "(Bezier/spline x rational/non-rational exhaustively); the degree-0 branch returns a curve on the curve's limits built from 0 * ctrlpoints[0]; the result depends on knot vector, "
         "control points and — on rational branches — weights. The derivative values and the quotient-rule algebra are not decided."
     )
-    chk.decides = ["DTYPE-INHERIT (the derivative factors are not stored into an array whose dtype comes from the data)", "RESULT-HOMOG (the derivative of a rational curve is of degree 0 in the weights: numerator and denominator parts are divided out)", "PURE", "FRESH", "EXHAUSTIVE dispatch", "DEP-MAY", "degree-0 branch shape", 'INTERVAL (the derivative lives on the operand knot values)', 'ZIP-ALIGN (the product knot vector of the quotient rule pairs parallel lists with the same slice)', 'NO-LOSSY (the derivative is not passed through a tolerance-accepting simplifier)']
+    chk.decides = ["TOL-ABSOLUTE (knot identity is decided on differences, never with a tolerance relative to the knots)", "DTYPE-INHERIT (the derivative factors are not stored into an array whose dtype comes from the data)", "RESULT-HOMOG (the derivative of a rational curve is of degree 0 in the weights: numerator and denominator parts are divided out)", "PURE", "FRESH", "EXHAUSTIVE dispatch", "DEP-MAY", "degree-0 branch shape", 'INTERVAL (the derivative lives on the operand knot values)', 'ZIP-ALIGN (the product knot vector of the quotient rule pairs parallel lists with the same slice)', 'NO-LOSSY (the derivative is not passed through a tolerance-accepting simplifier)']
     chk.not_decided = ["D(u) = dC/du as values", "quotient rule algebra", "knot vector of the derivative"]
     for f in FUNCS:
         r.pure("PURE", D + f, ["curve"])
@@ -66,3 +66,6 @@ def run(m, chk):
             txt = " ".join(seg(s.ast, 200) for s in r.stmt_nodes(ctx) if ctx.cfg.edge_dominates(t.id, "t", s.id))
             ok = ok and "limits" in txt and ("0 *" in txt or "* 0" in txt)
         chk.ob("DEGREE0", f"{D}curve: the degree-0 branch returns the zero curve on the curve's limits", ok, loc=r.loc(ctx, t.ast), detail="" if ok else f"{D}curve: the degree-0 branch no longer builds `0 * ctrlpoints[0]` on `knotvector.limits`", func=D + "curve", construct="degree-0 branch")
+    from .extra import tol_absolute
+
+    tol_absolute(r, chk, ["heavy.Calculus.difference_vector", "heavy.Calculus.difference_matrix", "heavy.Calculus.derivate_nonrational_spline", "heavy.Calculus.derivate_nonrational_bezier"])
